@@ -111,6 +111,7 @@ impl ActTask for Step {
         if state.is_running() {
             let tasks = task.children();
             let mut count = 0;
+            let mut resumed = false;
             for task in tasks.iter() {
                 if task.state().is_pending() && task.is_ready() {
                     // resume task through the queue: executing it here would review this step again
@@ -118,11 +119,17 @@ impl ActTask for Step {
                     task.set_state(TaskState::Running);
                     ctx.runtime.scher().emit_task_event(task)?;
                     ctx.runtime.push(task);
-                    return Ok(false);
+                    // the other waiting branches are looked at as well: several of them may
+                    // have become ready (or, for an else branch, been decided) by the same ending
+                    resumed = true;
+                    continue;
                 }
                 if task.state().is_completed() {
                     count += 1;
                 }
+            }
+            if resumed {
+                return Ok(false);
             }
 
             if count == tasks.len() && !has_open_act(&task) {
